@@ -67,6 +67,12 @@ func tagFilterParser(doc *Parser, start *Token, arguments *Parser) (INodeTag, *E
 		}
 		filterCall.name = nameToken.Val
 
+		// An unknown filter is a compile error here like everywhere else (not only
+		// an execution error when - and if - the tag gets executed)
+		if !FilterExists(filterCall.name) {
+			return nil, arguments.Error(fmt.Sprintf("Filter '%s' does not exist.", filterCall.name), nameToken)
+		}
+
 		// Check sandbox filter restriction
 		if _, isBanned := doc.template.set.bannedFilters[filterCall.name]; isBanned {
 			return nil, arguments.Error(fmt.Sprintf("Usage of filter '%s' is not allowed (sandbox restriction active).", filterCall.name), nameToken)
